@@ -4024,6 +4024,9 @@ int64_t ExpressionEvaluator::evaluate_function_call_impl(const ASTNode *node) {
             // タスクをイベントループに登録
             int task_id =
                 interpreter_.get_simple_event_loop().register_task(sleep_task);
+#ifdef CB_VERIF
+            cb_verif_trace("sleep %d %d", task_id, milliseconds);
+#endif
 
             debug_msg(DebugMsgId::SLEEP_TASK_REGISTER, task_id, milliseconds,
                       sleep_task.wake_up_time_ms);
@@ -4125,6 +4128,9 @@ int64_t ExpressionEvaluator::evaluate_function_call_impl(const ASTNode *node) {
             // タスクをイベントループに登録
             int task_id =
                 interpreter_.get_simple_event_loop().register_task(sleep_task);
+#ifdef CB_VERIF
+            cb_verif_trace("sleep %d %d", task_id, milliseconds);
+#endif
 
             debug_msg(DebugMsgId::SLEEP_TASK_REGISTER, task_id, milliseconds,
                       sleep_task.wake_up_time_ms);
